@@ -150,6 +150,7 @@ lyht_dup(const struct ly_ht *orig)
     memcpy(ht->hlists, orig->hlists, sizeof(ht->hlists[0]) * orig->size);
     memcpy(ht->recs, orig->recs, (size_t)orig->size * orig->rec_size);
     ht->used = orig->used;
+    ht->first_free_rec = orig->first_free_rec;
     return ht;
 }
 
